@@ -42,3 +42,38 @@ func GoodMarkOnce(have map[int]bool, x []int) int {
 	}
 	return len(x) - seen
 }
+
+// BadMarkTwiceOneLoop marks and counts the same cell twice in one trip round the loop.
+func BadMarkTwiceOneLoop(have map[int]bool, x []int) int {
+	marks := make([]int, len(x))
+	seen := 0
+	for i := range x {
+		if have[x[i]] {
+			seen++
+			marks[i] = -1
+		}
+		if i > 0 && x[i-1] == x[i] {
+			seen++
+			marks[i] = -1
+		}
+	}
+	return len(x) - seen
+}
+
+// GoodMarkOneLoop: the two cases exclude each other.
+func GoodMarkOneLoop(have map[int]bool, x []int) int {
+	marks := make([]int, len(x))
+	seen := 0
+	for i := range x {
+		if have[x[i]] {
+			seen++
+			marks[i] = -1
+			continue
+		}
+		if i > 0 && x[i-1] == x[i] {
+			seen++
+			marks[i] = -1
+		}
+	}
+	return len(x) - seen
+}
